@@ -1,10 +1,14 @@
 """C08 -- MAC command handling is consistent and atomic: the device does what it answers."""
 import re
 from .. import chanops, core, machist, macstage, lw
+from .c10 import DRS, FAM
+
+TXRF = re.compile(r"rf=\d+/(\d+)/(\d+)/")
 
 ID = "C08"
 THEOREMS = ["C08_answers_whole", "C08_answers_bounded", "C08_answers_in_order_trailing_dropped", "C08_rxparamsetup_atomic", "C08_rxtimingsetup_effect", "C08_rx1_delay_values",
-            "C08_dlchannel_atomic", "C08_newchannel_atomic", "C08_linkadr_atomic", "C08_sticky_answers"]
+            "C08_dlchannel_atomic", "C08_newchannel_atomic", "C08_linkadr_atomic", "C08_sticky_answers",
+            "C08_accepted_linkadr_governs_next_uplink"]
 BAND = {0: (915000000, 928000000), 1: (915000000, 928000000), 2: (915000000, 928000000), 3: (917000000, 920000000),
         4: (915000000, 928000000), 5: (863000000, 870000000), 6: (433050000, 434790000), 7: (865000000, 867000000), 8: (902000000, 928000000)}
 MAXOFF = {0: 7, 1: 7, 2: 7, 3: 7, 4: 5, 5: 5, 6: 5, 7: 7, 8: 3}
@@ -39,9 +43,35 @@ def command_case(rng, region, cmds, via_port0, extra_downlinks=0):
     return net.line()
 
 
+def bias_case(rng, region):
+    """fixed plans built with a join bias: OTAA join on the preferred sub-band, first data uplinks, then a LinkADRReq (new data rate and/or
+    power; the mask the same as, or different from, the one in force) -- an acknowledged request must show in the very next transmission"""
+    net = machist.Net(rng, region, bias="%d:%d" % (rng.range(1, 8), rng.choice([1, 2, 3, 4, 6])))
+    net.otaa_request(ndraws=40)
+    net.join_accept(cflist=rng.choice([b"", b"", bytes([0, 0xFF] + [0] * 6 + [1, 0]) + bytes(5) + b"\x01"]))
+    net.snap()
+    for _ in range(rng.below(3)):
+        net.send(b"d", 1, False, ndraws=40)
+        net.rx2c()
+    net.snap()
+    net.send(b"", 1, False, ndraws=40)
+    dr = rng.choice([1, 2, 3, 0, 15]) if region == 8 else rng.choice([3, 4, 5, 0, 15])
+    mask, ctl = rng.choice([(0x00FF, 6), (0xFFFF, 0), (0xFFFF, 1), (0x00FF, 4), (0x0003, 7), (0xFF00, 0), (0x00FF, 6)])
+    net.downlink(machist.link_adr(dr, rng.choice([15, 2, 5]), mask, ctl), None, b"")
+    net.snap()
+    for _ in range(3):
+        net.send(b"x", 3, False, ndraws=40)
+        net.rx2c()
+    net.snap()
+    return net.line()
+
+
 def gen(rng, tier):
     lines = []
     quick = tier == "quick"
+    for region in (4, 8):
+        for i in range(40 if quick else 600):
+            lines.append(bias_case(rng.fork("bias%d-%d" % (region, i)), region))
     for region in range(9):
         r = rng.fork("r%d" % region)
         ok, rx2 = machist.FREQ_OK[region], machist.RX2[region]
@@ -122,6 +152,14 @@ def oracle(case, impl, model=None):
         a, o = op.split(), outs[i]
         if a[0] == "abp":
             nwk, app, addr = bytes.fromhex(a[1]), bytes.fromhex(a[2]), int(a[3])
+        elif a[0] == "otaa":
+            appkey, nonce = bytes.fromhex(a[3]), int(a[4].split(",")[0]) & 0xFFFF
+        elif a[0] == "rx" and o.startswith("JoinSuccess"):
+            f = bytes.fromhex(a[1])
+            clear = f[:1] + b"".join(lw.aes_enc(appkey, f[1 + j:17 + j]) for j in range(0, len(f) - 1, 16))
+            nwk, app = lw.session_keys(appkey, int.from_bytes(clear[1:4], "little"), int.from_bytes(clear[4:7], "little"), nonce)
+            addr = int.from_bytes(clear[7:11], "little")
+            pending_reqs = None
         elif a[0] == "snap":
             m = SNAP.search(o)
             cur = tuple(int(x) for x in m.groups()) if m else None
@@ -225,6 +263,11 @@ def oracle(case, impl, model=None):
                                 return {"kind": "LinkADRReq fully acknowledged but data rate not as commanded", "before": b, "after": af}
                             if dr != 15 and dr not in machist.DEFINED[region]:
                                 return {"kind": "LinkADRReq with a data rate the region does not define was fully acknowledged", "request": p.hex()}
+                            # ... and the effect shows in this very transmission (the one that carries the answer)
+                            t = TXRF.search(o)
+                            if dr != 15 and t and dr in DRS[FAM[region]] and (int(t.group(1)), int(t.group(2))) != DRS[FAM[region]][dr]:
+                                return {"kind": "LinkADRReq fully acknowledged but the next uplink is not sent at the commanded data rate",
+                                        "request": p.hex(), "commanded_sf_bw": DRS[FAM[region]][dr], "used_sf_bw": [int(t.group(1)), int(t.group(2))]}
                             pbm, pam = pending_reqs.get("plan_before"), pending_reqs.get("plan_after")
                             if region not in (4, 8) and ((p[3] >> 4) & 7) == 0 and pam and pam[1][:2] != [p[1], p[2]]:
                                 return {"kind": "LinkADRReq fully acknowledged but the channel mask is not the commanded one", "request": p.hex(), "mask": pam[1][:2]}
